@@ -22,7 +22,7 @@ type SQLGen struct {
 	DB *model.DB
 }
 
-var strDomain = []string{"", "a", "b", "ab", "B", "a b", "abc", "z"}
+var strDomain = []string{"", "a", "b", "ab", "B", "a b", "abc", "z", "a  b", " a b"}
 
 func (g *SQLGen) LitFor(t string) proto.Val {
 	r := g.R
